@@ -10,8 +10,10 @@ import terms
 from common import run_shards
 
 PROP = 'C16'
-COQ_TARGETS = ['Props/C16.vo', 'Run/AgreeSem.vo']
-GEN = ['GenHash']
+import convprop
+
+COQ_TARGETS = ['Props/C16.vo', 'Run/AgreeSem.vo', 'Run/AgreeInst.vo']
+GEN = ['GenHash'] + convprop.MODEL_TABLES
 
 
 def make(opts, flags, explicit_hash=False, base=None):
@@ -274,6 +276,7 @@ def run(ctx, out):
         out.violation(f'C16:derived-non-init-field:{type(e).__name__}', f'copying / replacing {d!r} raised {type(e).__name__}: {str(e)[:160]}', {'case': 'derived'})
     out.evaluations += n
     out.sample({'case': items[7][1][:5], 'observed (==, <, <=, >, >=)': list(items[7][1][5])})
+    instance_machine(ctx, out, rng)
     if any(f in ctx['failed_files'] for f in ('Model/ClassSem.v', 'Run/AgreeSem.v')):
         out.oblige('corr_sem', False, 'model does not build')
         return
@@ -286,6 +289,53 @@ def run(ctx, out):
         out.violation('C16:corr_sem:shard-error', 'shard failed: ' + e[:400], {'correspondence': 'corr_sem', 'error': e[:1500]}, no_input=True)
     if bad and not out.has_unlisted_input():
         out.violation('C16:corr_sem', f'model and pane disagree on comparisons for {items[bad[0]][1]!r}', {'correspondence': 'corr_sem', 'case': repr(items[bad[0]][1])}, no_input=True)
+
+
+INST_HEADER = ('From Coq Require Import ZArith List Bool String.\nImport ListNotations.\n'
+               'Require Import Base.Outcome Base.PyNum Model.Values Model.Vocab Model.Types Model.Conv Model.Instance Run.AgreeInst.\nOpen Scope string_scope.\n')
+
+
+def instance_machine(ctx, out, rng):
+    """generated classes x constructor keywords x operation sequences (assign, delete, copy, deepcopy, replace; copies and
+    replacements are operated on further): each step against the property's own oracle on pane (monitor) and against
+    Model/Instance.v (corr_inst), whose theorems are in Props/C16.v"""
+    import collections
+    import instmachine as im
+    n_cases = 2500 if ctx['tier'] == 'thorough' else 500
+    items, stats = [], collections.Counter()
+    for i in range(n_cases):
+        spec, kw, ops = im.gen_case(rng, i)
+        try:
+            o0, obs, notes = im.run_pane(spec, kw, ops)
+        except terms.Unsupported:
+            stats['unsupported'] += 1
+            continue
+        out.evaluations += 1 + len(obs)
+        stats['construct:' + o0[0]] += 1
+        for op, o in zip(ops, obs):
+            stats[op[0] + ':' + o[0]] += 1
+        shape = [(f['name'], f['ty'], f.get('default'), f.get('init', True)) for f in spec['fields']]
+        for note in notes[:2]:
+            out.violation('C16:instance-machine', f'class {shape} frozen={spec["opts"]["frozen"]}, built with {kw}: {note}',
+                          {'fields': repr(shape), 'frozen': spec['opts']['frozen'], 'constructor_keywords': repr(kw), 'operations': repr(ops), 'note': note})
+        try:
+            items.append(((spec, kw, ops, o0, obs), im.case_to_coq(spec, kw, ops, o0, obs)))
+        except terms.Unsupported:
+            stats['not-expressible'] += 1
+    out.extra['instance_machine'] = {'cases': len(items), 'distribution': dict(sorted(stats.items()))}
+    if any(f in ctx['failed_files'] for f in ('Model/Instance.v', 'Run/AgreeInst.v')):
+        out.oblige('corr_inst', False, 'instance machine model does not build')
+        return
+    bad, errs = run_shards(PROP, 'inst', INST_HEADER, items, lambda it: it[1], per=250, final='inst_mismatches', ty='list inst_case')
+    out.oblige('corr_inst: Model/Instance.v = pane on every generated class, construction and operation sequence, step by step', not bad and not errs,
+               f'{len(bad)} mismatches over {len(items)}, {len(errs)} shard errors')
+    for e in errs[:1]:
+        out.violation('C16:corr_inst:shard-error', 'shard failed: ' + e[:400], {'correspondence': 'corr_inst', 'error': e[:1500]}, no_input=True)
+    if bad and not out.has_unlisted_input():
+        spec, kw, ops, o0, obs = items[bad[0]][0]
+        out.violation('C16:corr_inst', f'instance machine and pane disagree on {len(bad)} case(s), e.g. fields '
+                      f'{[(f["name"], f["ty"], f.get("default"), f.get("init", True)) for f in spec["fields"]]} frozen={spec["opts"]["frozen"]} built with {kw}, operations {ops}: pane did {obs}',
+                      {'correspondence': 'corr_inst', 'operations': repr(ops), 'observed': repr(obs), 'constructor_keywords': repr(kw)}, no_input=True)
 
 
 def replay(rep, out):
